@@ -75,7 +75,7 @@ def run_prg(ctx, c):
         frags = split(n, cuts, rate, "any")
         if cmd == "restart":
             a2 = expand(c["seed"] + "c%x" % i, 4 * (n % 16))
-            k2len = 0 if (n % 2 == 0 or not keyed) else max(l // 8, 4 * (n % 16))
+            k2len = 0 if n % 2 == 0 else max(l // 8, 4 * (n % 16))
             k2 = expand(c["seed"] + "d%x" % i, k2len)
             for S in (A, B):
                 x.call("bashPrgRestart", x.buf(a2), len(a2), x.buf(k2), len(k2), S, ret="v")
